@@ -85,7 +85,7 @@ def owns(clause, p=None):
 def run(ctx):
     quick = ctx.tier == "quick"
     rng = random.Random(ctx.seed * 7919 + 18)
-    tasks = sp.gen_tasks(ctx, rng, 8 if quick else 40, 3 if quick else 8, make_groups, 7, ("fail",), ("mom", "wd", "lr"))
+    tasks = sp.gen_tasks(ctx, rng, 8 if quick else 40, 3 if quick else 8, make_groups, 7, ("fail",), ("mom", "wd", "lr", "b1"))
     modes = [("eager", False), ("aot_eager", False), ("eager", True), ("aot_eager", None)]
     ptasks = []
     for i, (d, beh, _) in enumerate(tasks):
